@@ -38,6 +38,22 @@ def stop_shapes(rng, quick):
                 script['slow']['exec']['delay_ms'] = 20
             items.append({'wf': wf, 'oc': oc, 'script': script, 'input': {'x': 'x', 'n': 1, 'flag': True},
                           'schedule': gen.noise_schedule(rng, max_us=300), 'at': 'stop-while-%s slow=%d' % (where, slow_ms)})
+    # whatever the stop condition resolves to - an empty object, an object, zero, an empty-looking string - it has fired
+    # (only the literal false does not stop a step): the guarded step is still waiting for its run input and must not start
+    for vk, r in [('empty-object', 'steps.quick.starting.started'), ('object', 'steps.quick.outputs.success'), ('zero', 'steps.quick.outputs.success.n'),
+                  ('stage', 'steps.quick.outputs'), ('true', 'steps.quick.enabling.resolved.enabled')]:
+        g = {'input': tmap({'id': lit('g'), 'deps': tmap({'x': ref('steps.slow.outputs.success.tok')})}), 'stop_if': ref(r)}
+        wf = {'steps': {'quick': {'kind': 'plugin', 'pstep': 'nowork', 'fields': {'input': tmap({'id': lit('quick')})}},
+                        'slow': {'kind': 'plugin', 'pstep': 'nowork', 'fields': {'input': tmap({'id': lit('slow')})}},
+                        'g': {'kind': 'plugin', 'pstep': 'work', 'fields': g}},
+              'outputs': {'executed': tmap({'r': ref('steps.g.outputs.success.tok')}),
+                          'stopped': tmap({'c': ref('steps.g.closed.result.cancelled'), 's': ref('steps.slow.outputs.success.tok')}),
+                          'signalled': tmap({'r': ref('steps.g.outputs.cancelled_early.tok')})}}
+        oc = {'quick': okoc(), 'slow': okoc(), 'g': dict(okoc(), stop=True)}
+        script = {'quick': {'exec': {'out': 'success', 'n': 0}}, 'slow': {'exec': {'out': 'success', 'delay_ms': 60}},
+                  'g': {'exec': {'out': 'success', 'delay_ms': 2}}}
+        items.append({'wf': wf, 'oc': oc, 'script': script, 'input': {'x': 'x', 'n': 1, 'flag': True},
+                      'schedule': gen.noise_schedule(rng, max_us=300), 'at': 'stop-value-%s' % vk})
     # the stop condition and the run input of g come from the same producer, and g is held just before it waits for its run
     # input: when it gets there both are ready, whichever the select picks the plugin must not start (repeated, because the
     # choice between two ready cases is random)
